@@ -12,7 +12,7 @@ Exported for reuse:
 * `run_sim`, `run_err`, `decodeRows_append` : the lifts to row sequences;
 * `runRows_header`, `optionsFromFrame_ok`, `adapterFor_ok`, `DecState.new_ok`, `decodeRows_header` :
   the set-up from a valid first options row (`Spec.initState o` is the reference state after it);
-* term level: `term_sim`/`qslot_sim`, `term_err`/`qslot_err`, `slot_sim`, `spo_sim`, … stated on
+* term level: `term_sim`/`qslot_sim`, `term_err`/`qslot_err`, `slot_sim`, `spo_sim_dec`, … stated on
   `mirror` so that the decoder's result is given by an equation rather than an existential.
 -/
 namespace Jelly
@@ -64,7 +64,7 @@ theorem assign_err {t : LookupDec} {id : Nat} {v : String} {e : Spec.Violation} 
   · rw [if_neg (by omega)]
     exact ⟨_, rfl⟩
 
-theorem slot_eq {t : LookupDec} {i : Nat} (hw : t.WF) (hi : i ≠ 0) : Spec.slot t i = t.data[i - 1]? := by
+theorem slot_eq_dec {t : LookupDec} {i : Nat} (hw : t.WF) (hi : i ≠ 0) : Spec.slot t i = t.data[i - 1]? := by
   simp only [Spec.slot, LookupDec.WF] at *
   split
   · rfl
@@ -76,14 +76,14 @@ theorem slot_eq {t : LookupDec} {i : Nat} (hw : t.WF) (hi : i ≠ 0) : Spec.slot
 
 theorem at_ok {t : LookupDec} {i : Nat} {s : String} (hw : t.WF) (hi : i ≠ 0)
     (h : Spec.slot t i = some (some s)) : t.at i = ({ t with lastReused := i }, .ok s) := by
-  rw [slot_eq hw hi] at h
+  rw [slot_eq_dec hw hi] at h
   simp only [LookupDec.at]
   rw [if_neg (by simpa using hi)]
   rw [h]
 
 theorem at_err {t : LookupDec} {i : Nat} (hw : t.WF) (hi : i ≠ 0)
     (h : Spec.slot t i = none ∨ Spec.slot t i = some none) : ∃ t' e, t.at i = (t', .error e) := by
-  rw [slot_eq hw hi] at h
+  rw [slot_eq_dec hw hi] at h
   simp only [LookupDec.at]
   rw [if_neg (by simpa using hi)]
   rcases h with h | h <;> rw [h] <;> exact ⟨_, _, rfl⟩
@@ -563,7 +563,7 @@ theorem decodeSpo_err3 {q : Bool} {d d1 d2 : DecState} {s p o : Option WTerm} {t
 
 theorem WF_setRep {ss : Spec.State} (hw : ss.WF) (r : Repeated) : ({ ss with rep := r } : Spec.State).WF := hw
 
-theorem spo_sim {po ad} {ss ss' : Spec.State} {s p o : Option WTerm} {a b c : Term} (hw : ss.WF)
+theorem spo_sim_dec {po ad} {ss ss' : Spec.State} {s p o : Option WTerm} {a b c : Term} (hw : ss.WF)
     (h : Spec.resolveSpo ss s p o = .ok (ss', a, b, c)) :
     (mirror po ad ss).decodeSpo true s p o = .ok (mirror po ad ss', a, b, c) ∧ ss.Keeps ss' := by
   simp only [Spec.resolveSpo, bind, Except.bind, pure, Except.pure] at h
@@ -964,7 +964,7 @@ theorem step_mirror {o : Options} {dl : Bool} {ss ss' : Spec.State} {r : Row} {e
         injection h with h
         injection h with h1 h2
         subst h1 h2
-        obtain ⟨e1, k1⟩ := spo_sim (po := parserOptionsOf o dl) (ad := adapterOf o) hw hs
+        obtain ⟨e1, k1⟩ := spo_sim_dec (po := parserOptionsOf o dl) (ad := adapterOf o) hw hs
         refine ⟨?_, k1.1, k1.2.1.trans ho⟩
         simp only [DecState.decodeRow, e1]
         simp only [mirror_adapter, adapterOf_1 hp]
@@ -991,7 +991,7 @@ theorem step_mirror {o : Options} {dl : Bool} {ss ss' : Spec.State} {r : Row} {e
           injection h with h
           injection h with h1 h2
           subst h1 h2
-          obtain ⟨e1, k1⟩ := spo_sim (po := parserOptionsOf o dl) (ad := adapterOf o) hw hs
+          obtain ⟨e1, k1⟩ := spo_sim_dec (po := parserOptionsOf o dl) (ad := adapterOf o) hw hs
           refine ⟨?_, k1.1, k1.2.1.trans ho⟩
           simp only [DecState.decodeRow, e1]
           simp only [mirror_adapter, mirror_graphId, adapterOf_3 hp, k1.2.2, hg]
@@ -1008,7 +1008,7 @@ theorem step_mirror {o : Options} {dl : Bool} {ss ss' : Spec.State} {r : Row} {e
         obtain ⟨s1, ts, tp, to⟩ := r
         rw [hs] at h
         dsimp only at h
-        obtain ⟨e1, k1⟩ := spo_sim (po := parserOptionsOf o dl) (ad := adapterOf o) hw hs
+        obtain ⟨e1, k1⟩ := spo_sim_dec (po := parserOptionsOf o dl) (ad := adapterOf o) hw hs
         cases hgs : Spec.resolveSlot true s1 s1.rep.g g with
         | error e => rw [hgs] at h; cases h
         | ok r2 =>
@@ -1196,7 +1196,7 @@ theorem step_mirror_err {o : Options} {dl : Bool} {ss : Spec.State} {r : Row} {v
         obtain ⟨s1, ts, tp, to⟩ := r
         rw [hs] at h
         dsimp only at h
-        obtain ⟨e1, k1⟩ := spo_sim (po := parserOptionsOf o dl) (ad := adapterOf o) hw hs
+        obtain ⟨e1, k1⟩ := spo_sim_dec (po := parserOptionsOf o dl) (ad := adapterOf o) hw hs
         rw [e1]
         dsimp only
         cases hgs : Spec.resolveSlot true s1 s1.rep.g g with
